@@ -109,7 +109,8 @@ type Sched struct {
 	Ops []string // operation trace when Record
 
 	nextObj int
-	regs    map[any]int // registration ids of pointers (deterministic map order)
+	regs    map[uintptr]int // registration ids of pointers by address (deterministic map order)
+	regKeep []any
 	fp      uint64
 	pruned  bool
 
@@ -513,7 +514,7 @@ func (r *Result) LibThreadsAlive() []string {
 
 // RunOnce executes body under the scheduler following prefix, default choices afterwards.
 func RunOnce(prefix []int, opt Options, body func()) *Result {
-	s := &Sched{opt: opt, prefix: prefix, exited: make(chan int, 4096), regs: map[any]int{}}
+	s := &Sched{opt: opt, prefix: prefix, exited: make(chan int, 4096), regs: map[uintptr]int{}}
 	S = s
 	if opt.MaxSteps == 0 {
 		s.opt.MaxSteps = 200000
